@@ -31,15 +31,17 @@ def table():
     """markdown catch table from seeded/*/meta.json"""
     rows = []
     base = os.path.join(VERIF, "seeded")
-    for name in sorted(os.listdir(base)):
+
+    def order(name):
+        prop, _, rest = name.partition("-")
+        return (prop, rest.startswith("w"), rest)
+    for name in sorted(os.listdir(base), key=order):
         path = os.path.join(base, name, "meta.json")
         if not os.path.exists(path):
             continue
         meta = json.load(open(path))
         ver = meta.get("verified_by_us", {})
         checks = ver.get("checks", {})
-        caught = ", ".join("%s %s" % (p, "caught" if c["caught"] else "MISSED")
-                           for p, c in sorted(checks.items()))
         first = ""
         for c in checks.values():
             for ln in c["lines"]:
@@ -48,13 +50,17 @@ def table():
                     break
             if first:
                 break
+        caught = all(c["caught"] for c in checks.values()) and bool(checks)
+        note = meta.get("strengthened", "")
+        if note:
+            note = "strengthened — " + note
+        summary = meta.get("summary", "").replace("|", "/")
+        if len(summary) > 150:
+            summary = summary[:147] + "..."
         rows.append("| %s | %s | %s | %s | %s |" % (
-            name, meta.get("summary", "")[:110].replace("|", "/"),
-            meta.get("needs_to_manifest", "")[:90].replace("|", "/"),
-            caught, first + ("; " + meta["strengthened"]
-                             if meta.get("strengthened") else "")))
-    print("| seeded change | what it does | needs | quick check | first "
-          "reported key / note |\n|---|---|---|---|---|")
+            name, summary, "yes" if caught else "**no**", first, note))
+    print("| change | what it does | caught | first reported | note |\n"
+          "|---|---|---|---|---|")
     print("\n".join(rows))
 
 
